@@ -3,13 +3,13 @@ module verifharness
 go 1.25
 
 require (
+	github.com/cilium/ebpf v0.12.3
 	github.com/codelaboratoryltd/bng v0.0.0
 	go.uber.org/zap v1.27.0
 	layeh.com/radius v0.0.0-20231213012653-1006025d24f8
 )
 
 require (
-	github.com/cilium/ebpf v0.12.3 // indirect
 	github.com/google/uuid v1.6.0 // indirect
 	github.com/vishvananda/netlink v1.3.1 // indirect
 	github.com/vishvananda/netns v0.0.5 // indirect
